@@ -275,13 +275,13 @@ func writesOf(f *ssa.Function) []write {
 // ---------- program-wide facts ----------
 
 type effectFacts struct {
-	c            *Ctx
-	funcs        []*ssa.Function // module source functions
-	mutates      map[*ssa.Function]map[int]string
-	retGlobal    map[*ssa.Function]string // function returns a process-global object
-	fieldGlobal  map[types.Object]string  // struct field that can hold a process-global object -> how
-	reach        map[*ssa.Function]bool   // reachable from the run/compile entries
-	initOnly     map[*ssa.Function]bool
+	c           *Ctx
+	funcs       []*ssa.Function // module source functions
+	mutates     map[*ssa.Function]map[int]string
+	retGlobal   map[*ssa.Function]string // function returns a process-global object
+	fieldGlobal map[types.Object]string  // struct field that can hold a process-global object -> how
+	reach       map[*ssa.Function]bool   // reachable from the run/compile entries
+	initOnly    map[*ssa.Function]bool
 }
 
 func (c *Ctx) moduleFuncs() []*ssa.Function {
@@ -636,7 +636,7 @@ func (ef *effectFacts) guardedByMutex(in ssa.Instruction) bool {
 }
 
 func ruleEffect2(c *Ctx) {
-	c.R.Rule("EFFECT-2", 3, "no process-global state is written during compile or invoke: every in-place write (store, map update, append, copy, sort) in a function reachable from the run/compile entries whose target is a package-level variable, a variable captured by an init-time closure, or a value that can be one (through a field or a function result) is guarded by a package-level mutex, is an atomic operation, or is in the frozen table with a machine-checked side condition; reads of mutex-guarded globals are guarded too")
+	c.R.Rule("EFFECT-2", 2, "no process-global state is written during compile or invoke: every in-place write (store, map update, append, copy, sort) in a function reachable from the run/compile entries whose target is a package-level variable, a variable captured by an init-time closure, or a value that can be one (through a field or a function result) is guarded by a package-level mutex, is an atomic operation, or is in the frozen table with a machine-checked side condition; reads of mutex-guarded globals are guarded too")
 	ef := c.effects()
 	guardedGlobals := map[types.Object]bool{}
 	n := 0
@@ -865,7 +865,7 @@ func ruleEffect6(c *Ctx) {
 // ---------- EFFECT-5 ----------
 
 func ruleEffect5(c *Ctx) {
-	c.R.Rule("EFFECT-5", 4, "a fresh VM per invocation and an immutable program: the closure returned by vm.Compile obtains its VM from NewVM() inside the closure and shares nothing else mutable; the functions that write bytecode.code / cp.data are not reachable from (*VM).Interp")
+	c.R.Rule("EFFECT-5", 3, "a fresh VM per invocation and an immutable program: the closure returned by vm.Compile obtains its VM from NewVM() inside the closure and shares nothing else mutable; the functions that write bytecode.code / cp.data are not reachable from (*VM).Interp")
 	fd := c.FuncDecl("vm", "Compile")
 	if fd == nil {
 		c.R.Anchor("vm.Compile")
@@ -1001,7 +1001,7 @@ func ruleEffect5(c *Ctx) {
 // ---------- EFFECT-3 ----------
 
 func ruleEffect3(c *Ctx) {
-	c.R.Rule("EFFECT-3", 6, "caller-owned environments are never written: outside the Env types themselves and the engine's registration API, Put / RegisterFun / field stores on a *types.Env or *val.Env target an environment that the same function created (NewEnv, Derive, Inherit, conv.*EnvOf, composite literal); Inherit returns a copy (SIBLING-9)")
+	c.R.Rule("EFFECT-3", 4, "caller-owned environments are never written: outside the Env types themselves and the engine's registration API, Put / RegisterFun / field stores on a *types.Env or *val.Env target an environment that the same function created (NewEnv, Derive, Inherit, conv.*EnvOf, composite literal); Inherit returns a copy (SIBLING-9)")
 	freshEnv := func(body ast.Node, e ast.Expr) (bool, string) {
 		e = unparen(e)
 		if ce, ok := e.(*ast.CallExpr); ok {
